@@ -5,7 +5,7 @@ use crate::{
             NANOS_PER_DAY, NANOS_PER_SEC, SECS_PER_DAY, SECS_PER_DAY_U64, SECS_PER_HOUR_U64,
             SECS_PER_MINUTE_U64,
         },
-        format::format_time_part,
+        format::{format_time_part, unquote_part},
         offset::{add_offset_to_nanos, remove_offset_from_nanos},
         parse::{parse_format_string, parse_time_part, ParseUnit, ParsedTime, Period},
         time::{
@@ -338,10 +338,7 @@ impl Time {
 
                 // Escape parts starting with apostrophe
                 if part.starts_with('\'') {
-                    let part = part.replace('\u{0000}', "'");
-                    return part[1..part.len() - usize::from(part.ends_with('\''))]
-                        .chars()
-                        .collect::<Vec<char>>();
+                    return unquote_part(part).chars().collect::<Vec<char>>();
                 }
 
                 format_time_part(
